@@ -159,6 +159,12 @@
 //   - a type switch on an abstract value is an if-chain, in clause order, over
 //     extra Bool parameters `e<k>_is_<T>` ("the dynamic type is T"); fields of
 //     the narrowed value are opaque values as above;
+//   - a result (or assignment target) of abstract pointer or interface type is
+//     `AbsPtr` too: nil is `false`, a concrete value converted to the interface
+//     is `true` (which implementation it is, is not modelled);
+//   - a field of abstract pointer type of a translated struct
+//     (`srvReqInfo.Userinfo`) is not part of the Lean structure: reading it is
+//     an opaque `AbsPtr` parameter (its nil-ness);
 //   - []error literals, append on them and errors.Join are lists of optional
 //     texts and "first non-nil" (errors.Join is non-nil iff an element is);
 //   - opaque calls and reads from abstract objects are not allowed inside
@@ -183,6 +189,12 @@
 //   - with "trace", a deferred call is appended to the trace at every exit
 //     reached after the defer statement (arguments as evaluated at the defer);
 //   - with "trace", `go f(args)` is the effect ("go f", [scalar arguments]);
+//   - calls listed under "fn" are opaque *functions*: one parameter
+//     `f_<callee> : A1 → … → R` per callee, applied to the call's arguments of
+//     translatable type (abstract arguments such as ctx are dropped), so which
+//     value is handed to the callee is part of the translated meaning (a
+//     database look-up is a function of the identifier it is asked for); with
+//     "trace" the call is also recorded unless it is listed under "pure";
 //   - calls listed under "ignore" (mutex operations, logging, metrics) are
 //     dropped, and so is `defer func() { err = errors.Annotate(err, …) }()`;
 //     "lit": n translates the n-th function literal inside the named function
@@ -225,7 +237,18 @@
 //     a ':' in a generated parameter name is dropped instead of becoming '_';
 //     under "refs" a slice of translatable elements is a `List`, `len(s)` its
 //     length, `s[i]` is `none` (panic) unless 0 ≤ i < len(s), nil slice = [];
-//   - `len(x)` of anything else is an opaque value parameter.
+//   - `len(x)` of anything else is an opaque value parameter;
+//   - the zero value of a slice (a named result) is the empty list;
+//     newDeviceDataError(err, typ), like fmt.Errorf, makes a non-nil error;
+//   - a slice expression xs[lo:hi] on a list (a slice of translatable
+//     elements; abstract buffers and symbolic mode are treated above) is
+//     take/drop; bounds outside 0 ≤ lo ≤ hi ≤ len(xs) make the result `none`
+//     (capacity is not modelled);
+//   - a struct literal with field names T{f: v, …} is a Lean structure instance
+//     (fields of untranslatable type are not part of the structure, fields not
+//     mentioned get their zero value); &T{…} is `some` of it;
+//   - `defer func() { err = errors.Annotate(err, …) }()` is dropped: it changes
+//     the text of a non-nil error only (nil stays nil).
 //
 // Anything else is a translation error: the generated definition is replaced
 // by a marker that makes the Tie theorem fail, i.e. a broken obligation.
@@ -309,6 +332,10 @@ type TrFunc struct {
 	// LoopOpaque allows opaque calls and reads from abstract objects inside
 	// range loops: one parameter then stands for the result in every iteration.
 	LoopOpaque bool `json:"loop_opaque,omitempty"`
+	// Fn lists printed callee expressions whose calls become applications of
+	// one function parameter `f_<name>` (per callee) to the arguments of
+	// translatable type: the result depends on those arguments only.
+	Fn []string `json:"fn,omitempty"`
 }
 
 type trSpecFile struct {
@@ -872,6 +899,14 @@ func (c *fctx) exprAs(e ast.Expr, to types.Type) ex {
 			x := c.expr(e)
 			return c.bindN([]ex{x}, func(s []string) string { return "(" + s[0] + ").isSome" })
 		}
+		if _, toIface := to.Underlying().(*types.Interface); toIface && !types.IsInterface(c.typeOf(e)) {
+			// a concrete value stored in an interface is a non-nil interface
+			x := c.expr(e)
+			if strings.Contains(x.code, "«call:") {
+				fail("traced call inside a value converted to an abstract interface: %s", c.show(e))
+			}
+			return c.bindN([]ex{x}, func([]string) string { return "true" })
+		}
 	}
 	if id, ok := e.(*ast.Ident); ok && id.Name == "nil" && to != nil && strings.HasPrefix(c.t.leanType(to), "(List") {
 		return ex{code: "[]"} // a nil slice of translated element type
@@ -1130,6 +1165,31 @@ func (c *fctx) expr(e ast.Expr) ex {
 			c.opaqueNodes[e] = name
 		}
 		return ex{code: pre + "«call:(\"slice\", [" + c.traceArg(se) + "])»" + name}
+	}
+	if sx, ok := e.(*ast.SliceExpr); ok && !sx.Slice3 {
+		if _, isSl := c.typeOf(sx.X).Underlying().(*types.Slice); isSl && strings.HasPrefix(c.t.leanType(c.typeOf(sx.X)), "(List") {
+			// xs[lo:hi] on a list (abstract buffers, symbolic tokens and, in trace
+			// mode, re-slicing as an opaque value are handled above); bounds outside 0 ≤ lo ≤ hi ≤ len => panic (capacity is not modelled)
+			c.partial = true
+			parts := []ex{c.expr(sx.X), {code: "(0 : Int)"}}
+			if sx.Low != nil {
+				parts[1] = c.expr(sx.Low)
+			}
+			if sx.High != nil {
+				parts = append(parts, c.expr(sx.High))
+			}
+			r := c.bindN(parts, func(s []string) string {
+				hi := "(" + s[0] + ".length : Int)"
+				if len(s) == 3 {
+					hi = s[2]
+				}
+				return fmt.Sprintf("(if 0 ≤ %s ∧ %s ≤ %s ∧ %s ≤ (%s.length : Int) then some ((%s.take (%s).toNat).drop (%s).toNat) else none)", s[1], s[1], hi, hi, s[0], s[0], hi, s[1])
+			})
+			if r.partial {
+				return ex{code: "(Option.join " + r.code + ")", partial: true}
+			}
+			return ex{code: r.code, partial: true}
+		}
 	}
 	if ta, ok := e.(*ast.TypeAssertExpr); ok && c.typeTests[ta] {
 		// "the dynamic type of X is T" (a clause of a type switch): an opaque Bool
@@ -1461,7 +1521,7 @@ func (c *fctx) calleeKey(call *ast.CallExpr) (key string, recvExpr ast.Expr) {
 			if p, ok := rt.(*types.Pointer); ok {
 				rt = p.Elem()
 			}
-			if n, ok := rt.(*types.Named); ok && fn.Pkg() != nil {
+			if n, ok := types.Unalias(rt).(*types.Named); ok && fn.Pkg() != nil {
 				return fn.Pkg().Path() + "." + n.Obj().Name() + "." + fn.Name(), f.X
 			}
 		}
@@ -1655,11 +1715,37 @@ func (c *fctx) call(x *ast.CallExpr) ex {
 		}
 		return r
 	}
+	// "fn": an applied function parameter, shared by the call sites of that callee
+	if c.matches(c.spec.Fn, x) {
+		name := "f_" + sanitize(lastName(c.show(x.Fun)))
+		var xs []ex
+		var sig []string
+		for _, a := range x.Args {
+			if lt := c.t.leanType(c.typeOf(a)); lt != "" {
+				xs, sig = append(xs, c.expr(a)), append(sig, lt)
+			}
+		}
+		decl := "(" + name + " : " + strings.Join(append(sig, c.t.valType(c.typeOf(x))), " → ") + ")"
+		dup := false
+		for _, o := range c.opaque {
+			if dup = dup || o == decl; o != decl && strings.HasPrefix(o, "("+name+" : ") {
+				fail("fn %s is applied at two different types", name)
+			}
+		}
+		if !dup {
+			c.opaque = append(c.opaque, decl)
+		}
+		r := c.bindN(xs, func(s []string) string { return "(" + strings.Join(append([]string{name}, s...), " ") + ")" })
+		if c.trace && !c.matches(c.spec.Pure, x) {
+			r.code = "«call:" + c.traceEntry(x) + "»" + r.code
+		}
+		return r
+	}
 	// errors made by any other call: opaque non-nil error value labelled by source text
 	if isError(c.typeOf(x)) && !(c.trace && c.t.traceErrors) && !c.matches(c.spec.Pure, x) {
 		if tup, ok := c.typeOf(x).(*types.Tuple); !ok || tup.Len() == 1 {
 			switch c.show(x.Fun) {
-			case "fmt.Errorf", "errors.New", "errors.Error", "newNotPositiveError", "newNegativeError", "newMustBeUniqueError":
+			case "fmt.Errorf", "errors.New", "errors.Error", "newNotPositiveError", "newNegativeError", "newMustBeUniqueError", "newDeviceDataError":
 				return ex{code: fmt.Sprintf("(some %q)", c.show(x))}
 			}
 		}
